@@ -33,7 +33,7 @@ CHECKS = {
     "C06": dict(
         technique="step-wise layer-buffer monitor through the verif_layer hook plus an end-to-end isolated-group reference built with the public API only",
         text="Layer-heavy scenes (nesting to depth 3, opacity 0..1 and out of range/NaN, all 28 modes, layers under rect/path/empty/inverted/oversized clips, clear and every other call inside): every call must change only the innermost layer buffer per the compositing oracles, pop_layer must composite the buffer once; independently the group is rendered on a separate transparent surface and composited once and compared with the layered result. Held on what was run.",
-        note="Same trusted base as C03 for the per-pixel rule. The end-to-end reference assumes clips pushed before the layer stay until after the pop (well-nested scenes).",
+        note="Same trusted base as C03 for the per-pixel rule. The end-to-end reference assumes clips pushed before the layer stay until after the pop (well-nested scenes); the step-wise monitor also runs templated scenes where a layer outlives its clip and surfaces above 65536 pixels. A wrong pixel in a layer buffer or in pop_layer's destination counts for C06 whichever rule it breaks.",
         ref="DESIGN.md section 3, C06",
     ),
     "C16": dict(
@@ -69,19 +69,19 @@ CHECKS = {
     "C04": dict(
         technique="reference-model monitor: independently constructed stroke region (convex primitives in f64, mapped by the transform) evaluated on every pixel of generated strokes",
         text="Generated strokes (polylines and curves, open/closed, directed turning angles incl. 0/90/180 degrees, widths 0.3..40, 3 caps x 3 joins, miter limits on both sides of the switch-over, translation/rotation/scale/shear/mirror transforms, both AA modes) rendered white on transparent; pixels deep inside the region must be fully painted, pixels deep outside untouched (margin 0.5 px straight, 1 px otherwise); non-positive and NaN widths must paint nothing. Held on the strokes run.",
-        note="Containment is conservative (pixel disc inside one primitive / clear of all primitives); pixels near the boundary, miter joins within 3% of their switch-over and near-cusp vertices are not asserted (counted). For curved paths the polyline is Path::flatten() at the stroker's tolerance.",
+        note="Containment is conservative (pixel disc inside one primitive / clear of all primitives); pixels near the boundary, miter joins within 3% of their switch-over and near-cusp vertices are not asserted (counted). For curved paths the polyline is Path::flatten() at the stroker's tolerance, except curves whose points share one x or y, which are straightened in closed form.",
         ref="DESIGN.md section 3, C04",
     ),
     "C08": dict(
         technique="reference-model monitor: f64 path interpreter, winding number and distance to the finely sampled outline at every pixel centre of generated curved fills and clip paths",
         text="Generated paths mixing move/line/quad/cubic/arc/close (looping, cusped, coincident control points, commands after close, missing MoveTo, control points out to +-3500) under invertible transforms, both rules and AA modes, as fills and as clip paths; every pixel more than 1 px from the exact outline must be 255 inside / 0 outside. Held on the paths run.",
-        note="Curves sampled at 256 steps in f64; arcs are taken through the control points PathBuilder::arc emitted (C20 owns their geometry).",
+        note="Curves sampled at 256 steps in f64; in the mixed random paths arcs are taken through the control points PathBuilder::arc emitted (C20 owns their geometry); a separate workload of discs, pies and rings built with arc() is judged against the true circles, direction included.",
         ref="DESIGN.md section 3, C08",
     ),
     "C09": dict(
         technique="reference-model monitor: independent f64 arc-length dasher feeding the C04 region oracle, plus a polyline-level check of the private dash_path through the verif_dash_path hook",
         text="Generated dashed strokes (open/closed subpaths, arrays of 1..6 positive entries incl. entries longer than the path and odd lengths, offsets of both signs up to +-2e4, all caps/joins) are compared pixel by pixel with the region of the independently dashed pieces (0.75 px margin); dash_path's output must conserve the on-length, stay on the input path and have the expected number of connected pieces; non-positive totals must paint nothing. Held on the cases run.",
-        note="Cases with a dash boundary within 0.02 px of a vertex are skipped unless caps and joins are Round (cap orientation would flip on f32 rounding). Larger offsets are left to C07 (f32 period rounding moves the phase).",
+        note="Cases with a dash boundary within 0.02 px of a vertex are skipped unless caps and joins are Round (cap orientation would flip on f32 rounding). The guard includes boundaries up to 1 px beyond either end of a subpath. Larger offsets are left to C07 (f32 period rounding moves the phase).",
         ref="DESIGN.md section 3, C09",
     ),
     "C07": dict(
@@ -93,13 +93,13 @@ CHECKS = {
     "C10": dict(
         technique="fresh-twin history differential (exact) over long random call histories, steered by the verif_state hook; the same histories under AddressSanitizer and Miri in the thorough tier",
         text="After every call of long random histories on one DrawTarget the call is replayed on a fresh target holding the same pixels, transform and clip stack and the pixels are compared bit for bit; histories are biased towards no-op draws and towards followers that make leftover cursor/rasteriser state visible. Held on the histories run; thorough adds ASan and Miri runs of the same workload (a sanitizer report is a violation).",
-        note="The twin re-pushes clip paths pre-transformed under the identity (relies on C11's bit-identity). Layer groups are compared as one unit. The hook never produces a verdict.",
+        note="The twin re-pushes clip paths pre-transformed under the identity (relies on C11's bit-identity). Layer groups are compared as one unit. One history in eight builds and uses every twin in a fresh thread (per-thread memory of the library is empty there); histories repeat the previous call with only the transform, or one ingredient of the source, changed. The hook never produces a verdict.",
         ref="DESIGN.md section 3, C10",
     ),
     "C11": dict(
         technique="exact differentials: pre-transformed path vs transform on the target; identity vs T for device-space calls; singular-T no-op monitor; transform-preservation monitor",
         text="fill under T vs fill of Path::transform(T) under the identity must be bit-identical (all op kinds, AA modes, under clips and in layers); singular T must leave every pixel unchanged for fill/stroke/fill_rect/draw_image; push_clip_rect, mask(solid), copy_surface, blend_surface* must not depend on T; clear/pop_layer must leave get_transform() bitwise unchanged. Sources and strokes under T are judged by the C12/C13/C04 oracles, which draw random transforms. Held on what was run.",
-        note="mask() with a solid source under a singular transform is not asserted (the statement is silent on which clause wins).",
+        note="mask() with a solid source under a singular transform is not asserted (the statement is silent on which clause wins). The C13/C12 oracles are also run from this check under a current transform in every case (well-conditioned matrices) and count for C11.",
         ref="DESIGN.md section 3, C11",
     ),
     "C12": dict(
